@@ -6,6 +6,11 @@ VERIF = os.path.dirname(os.path.dirname(os.path.abspath(__file__)))
 ALL = ["C%02d" % i for i in range(1, 21)]
 
 CLAIMED = {
+ "C07": dict(
+   technique="TLA+ spec DnsRoute.tla: first-match reference semantics of dns.routing request/response rules (qname kinds, qtype, ip on answer records, upstream by declaration), the match-set lowering + sentinel scan of RequestMatcher/ResponseMatcher and the optimisers as implementation layer, and the controller flow (route, reject purges and answers empty, scoped cache, bounded re-ask chain) as a state machine; model-checked with TLC; every configuration rendered to dae configuration text and run through dns.New + RequestSelect/ResponseSelect, and every behaviour through DnsController.HandleWithResponseWriter_ with fake upstream servers",
+   text="TLC checks exhaustively that both scans refine first-match and the optimisers preserve it over all single-rule programs of the full condition universe and all 1-2 rule programs of the reduced one, and that no rule set makes the controller ask more than MaxDnsLookupDepth times (rule sets that bounce between upstreams included), that reject answers empty without asking whatever the cache holds, and that replies are the last asked upstream's answer. Vectors: every configuration x every context (4 spellings of names x 3 qtypes x 8 answer record mixes x answering upstream incl. as-is and a second upstream declared with the same URL) against RequestSelect / ResponseSelect, comparing the decision and the identity of the returned upstream object. Behaviours: configurations + up to 4 client questions / carried-over cache entries against a real DnsController: which fake server is asked in which order, the reply's records, id and question, the depth error.",
+   note="Upstream transports are fake forwarders behind the dnsForwarderFactory / bestDialerChooser seams (C09 covers the transports). geosite/geoip expansions are not exercised offline. Trusted: TLC.",
+   design="§3 C07"),
  "C08": dict(
    technique="TLA+ spec DnsCache.tla (keys = name/type/scope, whole-second clock, configuration chosen in the initial state, janitor phase, reload clones) model-checked with TLC; simulated histories with per-step expected observations replayed on a real DnsController in virtual time (testing/synctest) through the production insert and lookup paths",
    text="TLC explores all histories of length 5 over 3 keys (two scopes of one name, another name/type), 2 record TTLs, fixed_domain_ttl on/off, optimistic caching on/off, stale window 0/20 s, size limit 0/2 and clock ticks that straddle deadlines, stale-window ends and janitor runs. Histories of length 16 are executed on a real controller inside a synctest bubble (Tick = time.Sleep, the real 30 s janitor fires in virtual time): answers enter through NormalizeAndCacheDnsResp_, lookups go through LookupDnsRespCache_ with differently-cased names, reloads through CloneCacheForReload/RestoreReloadCache; served-vs-miss, the served address, the question, the TTL slack, the refresh flag, the size bound and the survivors of LRU eviction are compared. This found and fixed two defects (stale window never honoured; LRU evicting just-inserted entries).",
